@@ -141,8 +141,11 @@ def _body(ctx):
               'the target key is not rendered from the row and its number')
     # full-outer emission after the loop
     post = stmts_after(lp)
-    okp = len(post) == 1 and match_stmt("if mode == 'full-outer':\n    for (_k, _used) in %s.items():\n        if _used is False:\n"
-                                        "            _e = __LOOKUP(_k)\n            yield _e" % usage, post[0]) is not None
+    okp = len(post) == 1 and (
+        match_stmt("if mode == 'full-outer':\n    for (_k, _used) in %s.items():\n        if _used is False:\n"
+                   "            _e = __LOOKUP(_k)\n            yield _e" % usage, post[0]) is not None or
+        match_stmt("if mode == 'full-outer':\n    for (_k, _used) in %s.items():\n        if _used is False:\n"
+                   "            yield __LOOKUP(_k)" % usage, post[0]) is not None)
     run.check(okp, 'R23', pt.where, pt.qualname, "after the loop, full-outer only: for key, used in usage.items(): if used is False: yield lookup(key)",
               'full-outer does not emit exactly the unmatched source keys after the target rows')
 
@@ -204,15 +207,23 @@ def _body(ctx):
             nodes = list(path_nodes(p, into_loops=True))
             drains = [c for c in nodes if isinstance(c, ast.Call) and is_drain_call(res, c)]
             floops = [it.node for it in p.items if it.kind == 'loop']
-            okd = len(drains) == 1 and isinstance(drains[0].args[0], ast.Call) and \
-                any(isinstance(t, FuncInfo) and t is ix0 for t in res._resolve_callee(drains[0].args[0].func, pt.module, pt0)) and \
-                pseudo(drains[0].args[0].args[0]) == pt.params[0] and len(floops) == 1 and \
+            drained = drains[0].args[0] if len(drains) == 1 and drains[0].args else None
+            if isinstance(drained, ast.Name):
+                # the argument of an inlined drain helper: the single value assigned to that name
+                vs_ = [a_.value for a_ in nodes if isinstance(a_, ast.Assign) and pseudo(a_.targets[0]) == drained.id]
+                drained = vs_[0] if len(vs_) == 1 else drained
+            okd = len(drains) == 1 and isinstance(drained, ast.Call) and \
+                (any(isinstance(t, FuncInfo) and t is ix0 for t in res._resolve_callee(drained.func, pt.module, pt0))
+                 or pseudo(drained.func) == ix0.node.name) and \
+                len(drained.args) == 1 and pseudo(drained.args[0]) == pt.params[0] and len(floops) == 1 and \
                 u(floops[0].iter).endswith('.items()') and sum(isinstance(y, ast.Yield) for y in ast.walk(floops[0])) == 1 and \
                 not any(isinstance(x, (ast.If, ast.Break, ast.Continue)) for x in ast.walk(floops[0])) and \
-                drains[0].lineno < floops[0].lineno
+                [i_ for i_, n_ in enumerate(nodes) if n_ is drains[0]][0] < min(i_ for i_, n_ in enumerate(nodes) if any(n_ is x for x in ast.walk(floops[0])))
             if okd:
                 okd = has_expr("{_k: AGGREGATORS[fields[_k]['aggregate']].finaliser(_v) for (_k, _v) in _val.items()}", floops[0]) and \
-                    (has_expr('{_f: None for _f in fields.keys()}', floops[0]) or has_expr('{_f: None for _f in fields}', floops[0]))
+                    (has_expr('{_f: None for _f in fields.keys()}', floops[0]) or has_expr('{_f: None for _f in fields}', floops[0])
+                     or has_expr('dict.fromkeys(fields)', floops[0]) or has_expr('dict.fromkeys(fields.keys())', floops[0])
+                     or has_expr('dict.fromkeys(fields, None)', floops[0]))
     run.check(okd, 'R23', pt.where, pt.qualname, 'dedup: drain indexer(resource); then one finalised row per key of db.items()',
               'deduplication mode does not emit exactly one aggregated row per distinct key')
     # lookup: finaliser of the aggregator named by the field spec, for joined fields only
@@ -258,9 +269,29 @@ def _body(ctx):
             run.fail('AGG', m.relpath, J + ':<module>', 'AGGREGATORS[%r]' % name, 'aggregate %r missing or malformed' % name)
             continue
         f, fin = c.args[0], c.args[1]
-        okf = isinstance(f, ast.Lambda) and len(f.args.args) == 2 and \
-            any(match_expr(v, f.body, {'_curr': f.args.args[0].arg, '_new': f.args.args[1].arg}) is not None
-                for v in variants(fshape, name in commutative))
+
+        def as_lambda(e_, n_params):
+            """(parameter names, body expression) of a lambda, or of a module-level function whose body is one returned
+            expression (a conditional return counts: `if c: return a` / `else: return b`)"""
+            if isinstance(e_, ast.Lambda) and len(e_.args.args) == n_params:
+                return [a_.arg for a_ in e_.args.args], e_.body
+            if isinstance(e_, ast.Name):
+                g = repo.func('%s:%s' % (J, e_.id), None)
+                if g is not None and not isinstance(g.node, ast.Lambda) and len(g.params) == n_params:
+                    body_ = [st for st in g.node.body if not (isinstance(st, ast.Expr) and isinstance(st.value, ast.Constant))]
+                    if len(body_) == 1 and isinstance(body_[0], ast.Return) and body_[0].value is not None:
+                        return g.params, body_[0].value
+                    if len(body_) == 1 and isinstance(body_[0], ast.If) and len(body_[0].body) == 1 and len(body_[0].orelse) == 1 and \
+                            isinstance(body_[0].body[0], ast.Return) and isinstance(body_[0].orelse[0], ast.Return):
+                        return g.params, ast.IfExp(test=body_[0].test, body=body_[0].body[0].value, orelse=body_[0].orelse[0].value)
+            return None
+        fl = as_lambda(f, 2)
+        okf = fl is not None and any(match_expr(v, fl[1], {'_curr': fl[0][0], '_new': fl[0][1]}) is not None
+                                     for v in variants(fshape, name in commutative))
+        # the fold may be the two-argument function itself instead of a lambda that only forwards to it
+        e_fw = match_expr('_g(_curr, _new)', ast.parse(fshape, mode='eval').body)
+        if not okf and e_fw is not None and isinstance(f, ast.Name) and f.id == e_fw['_g']:
+            okf = True
         if isinstance(fin, ast.Lambda):
             okn = len(fin.args.args) == 1 and match_expr(finshape, fin.body, {'_v': fin.args.args[0].arg}) is not None
         else:
@@ -291,7 +322,11 @@ def _body(ctx):
     run.check(has_stmt('source_key = KeyCalc(source_key)', aux.node) and
               (has_stmt('if target_key is not None:\n    target_key = KeyCalc(target_key)\nelse:\n    target_key = target_key', aux.node) or
                has_stmt('if target_key is not None:\n    target_key = KeyCalc(target_key)', aux.node) or
-               has_stmt('if target_key is None:\n    target_key = target_key\nelse:\n    target_key = KeyCalc(target_key)', aux.node)), 'KEY', aux.where,
+               has_stmt('if target_key is None:\n    target_key = target_key\nelse:\n    target_key = KeyCalc(target_key)', aux.node) or
+               # `deduplication` is the name of `target_key is None`, taken before target_key is rebound
+               (has_stmt('deduplication = target_key is None', aux.node) and
+                (has_stmt('if deduplication:\n    target_key = None\nelse:\n    target_key = KeyCalc(target_key)', aux.node) or
+                 has_stmt('if not deduplication:\n    target_key = KeyCalc(target_key)', aux.node)))), 'KEY', aux.where,
               aux.qualname, 'both keys rendered by KeyCalc', 'source and target keys are rendered by different code')
 
     run.rule('ORD', 'INDEX-BEFORE-TARGET: the target branch asserts that the source was indexed; mode is one of the three documented '
@@ -308,7 +343,15 @@ def _body(ctx):
               'the target can be processed before the source was indexed (every row would be unmatched)')
     am = [n for n in own_nodes(aux.node) if isinstance(n, ast.Assert) and 'mode' in names_in(n.test) and
           isinstance(n.test, ast.Compare) and isinstance(n.test.ops[0], ast.In)]
-    ok = len(am) == 1 and sorted(abstypes._const(e) for e in am[0].test.comparators[0].elts) == ['full-outer', 'half-outer', 'inner']
+    modes_ok = False
+    if len(am) == 1:
+        from rules import tables as _tb
+        try:
+            vals_ = _tb.literal(ctx, aux.module.name, am[0].test.comparators[0])
+            modes_ok = len(vals_) == 1 and sorted(vals_[0]) == ['full-outer', 'half-outer', 'inner']
+        except AnalysisError:
+            modes_ok = False
+    ok = len(am) == 1 and modes_ok
     run.check(ok, 'ORD', aux.where, aux.qualname, "assert mode in ['inner', 'half-outer', 'full-outer']", 'an unknown mode is accepted silently')
     func = nested(ctx, aux, 'step')
     stream.r6_consumption(ctx, [func])
